@@ -142,7 +142,15 @@ impl Compile {
 
     fn run_on_single_file(&self, source: &PathBuf, destination: &PathBuf) -> Result<()> {
         let grammar = fs::read_to_string(source)?;
-        let source_header = format!("{}\n{}", generate_source_header(&grammar), self.prefix);
+        // The header decides whether the destination is up to date, so it also has to identify
+        // the prefix (a prefix of the old prefix, or one that rustfmt rewrites, must not confuse it).
+        let prefix_crc =
+            crc::Crc::<u32>::new(&crc::CRC_32_ISO_HDLC).checksum(self.prefix.as_bytes());
+        let source_header = format!(
+            "{}// CRC-32/ISO-HDLC of the prefix: {:08x}\n",
+            generate_source_header(&grammar),
+            prefix_crc,
+        );
         if let Ok(f) = File::open(destination) {
             let mut existing_header = String::new();
             if f.take(source_header.len() as u64)
@@ -157,8 +165,9 @@ impl Compile {
         let parsed_grammar = Grammar::from_str(&grammar)
             .map_err(|err| PrettyParseError::from_parse_error(&err, &grammar, source.to_str()))?;
         let generated_code = format!(
-            "{}\n{}",
+            "{}\n{}\n{}",
             source_header,
+            self.prefix,
             parsed_grammar.generate_code(&self.settings)?
         );
         fs::write(destination, generated_code)?;
